@@ -30,18 +30,18 @@ func (v PathView) String() string {
 
 // AttrFields is the content of a path in the vocabulary of both sides (bio-rd path / wire attributes).
 type AttrFields struct {
-	Origin      uint8
-	ASPath      string // "2[1 2 3]1[4 5]" segments with type
-	NextHop     string
-	MED         uint32
-	LocalPref   uint32
-	Atomic      bool
-	Aggregator  string
-	Communities []uint32
-	LargeComms  []string
+	Origin       uint8
+	ASPath       string // "2[1 2 3]1[4 5]" segments with type
+	NextHop      string
+	MED          uint32
+	LocalPref    uint32
+	Atomic       bool
+	Aggregator   string
+	Communities  []uint32
+	LargeComms   []string
 	OriginatorID uint32
-	ClusterList []uint32
-	Unknown     []string
+	ClusterList  []uint32
+	Unknown      []string
 }
 
 // Text renders the fields canonically.
